@@ -285,7 +285,36 @@ func ruleR071(c *Ctx) {
 					c.OK(key, d.node.Pos(), "range statement not in the control flow graph (unreachable)")
 					continue
 				}
-				found, trail := g.PathFromBlock(body, isExit, func(x ast.Node) bool { return isRead(x, d.obj) }, func(b *cfg.Block) bool { return b == loop || b == done })
+				// an exit that drops the pulled element as a whole under a condition that does not depend on the element
+				// ("the quota is used up", iterator.FirstN) drops a read-ahead element; its error must not be reported (C08)
+				elemObjs := map[types.Object]bool{}
+				for _, e := range []ast.Expr{d.rs.Key, d.rs.Value} {
+					if id, ok := e.(*ast.Ident); ok && id.Name != "_" {
+						elemObjs[info.ObjectOf(id)] = true
+					}
+				}
+				mentionsElem := func(n ast.Node) bool {
+					return containsNodeDeep(n, func(y ast.Node) bool {
+						id, ok := y.(*ast.Ident)
+						return ok && elemObjs[info.ObjectOf(id)]
+					})
+				}
+				rangeExit := func(x ast.Node) bool {
+					if !isExit(x) {
+						return false
+					}
+					if blkStmt, ok := c.Parent(x).(*ast.BlockStmt); ok && len(blkStmt.List) == 1 {
+						if ifs, ok := c.Parent(blkStmt).(*ast.IfStmt); ok && ifs.Body == blkStmt && ifs.Init == nil && !mentionsElem(ifs.Cond) && !mentionsElem(x) &&
+							!containsNode(ifs.Cond, func(y ast.Node) bool { _, isCall := y.(*ast.CallExpr); return isCall }) {
+							// the element's value must not have been used before either
+							if used, _ := g.PathFromBlock(body, func(y ast.Node) bool { return y == x }, func(y ast.Node) bool { return y != ast.Node(ifs.Cond) && mentionsElem(y) }, nil); used {
+								return false
+							}
+						}
+					}
+					return true
+				}
+				found, trail := g.PathFromBlock(body, rangeExit, func(x ast.Node) bool { return isRead(x, d.obj) }, func(b *cfg.Block) bool { return b == loop || b == done })
 				if found {
 					where := ""
 					if len(trail) > 0 {
